@@ -560,6 +560,8 @@ impl Engine for C20 {
         // every shape the builder can be asked to build, as a note of a two-note library (`doc|text`)
         let mut doc = |t: &str| emit(&format!("doc|{}", t));
         crate::space::wide_container_docs(&mut doc);
+        crate::space::blank_nested_docs(&mut doc);
+        crate::space::sibling_run_docs(&mut doc);
         if tier == Tier::Thorough {
             crate::space::block_docs(4, 3, 4, true, &mut doc);
         } else {
